@@ -1046,12 +1046,18 @@ def dominated_mod_flags(body, x, edges=(), blocks=(), depth=0):
     return False
 
 
+def _pos(v):
+    return bool(v) and v != "neg"
+
+
 def guarded_by_pred(body, x, pred, depth=0, side=True):
     """x hangs on the `side` (True: true side, False: false side) of a test whose value satisfies pred(origin) - directly
     (`if test {x}`), negated with the other side, or through a flag: x hangs on that side of `if flag`, and every definition of the
     flag that can give it that value (anything but the opposite constant) is such a test result or is itself guarded"""
     for sbb, te, fe, o in guards_on(body, pred):
-        e = te if side else fe
+        # pred may answer "neg": the test is the negation of the wanted predicate (`a != b` for `a == b`)
+        pos = pred(o) != "neg"
+        e = (te if side else fe) if pos else (fe if side else te)
         if e and body.dominated_by_any(x, edges=e):
             return True
     if depth > 3:
@@ -1066,16 +1072,16 @@ def guarded_by_pred(body, x, pred, depth=0, side=True):
             continue
         ok = True
         for bb, kind, pl in live:
-            if kind == "call" and pred({"k": "call", "bb": bb, "t": pl}):
+            if kind == "call" and _pos(pred({"k": "call", "bb": bb, "t": pl})):
                 continue
             if kind == "op":
                 o = origin(body, pl)
                 n = 0
                 while o["k"] == "not":
                     o = o["a"]; n += 1
-                if n % 2 == 0 and pred(o):
+                if (n % 2 == 0 and _pos(pred(o))) or (n % 2 == 1 and pred(o) == "neg"):
                     continue
-            if kind == "rv" and pl["k"] == "bin" and pred({"k": "bin", "op": pl["op"], "a": pl["a"], "b": pl["b"], "bb": bb}):
+            if kind == "rv" and pl["k"] == "bin" and _pos(pred({"k": "bin", "op": pl["op"], "a": pl["a"], "b": pl["b"], "bb": bb})):
                 continue
             if guarded_by_pred(body, bb, pred, depth + 1, side):
                 continue
